@@ -1,5 +1,7 @@
 (* C01 -- Complete recovery from any loss within the parity level.
-   Statements only; model: Fix/FixModel.v (check.c repair / repair_step / state_check_process); proofs: Fix/RepairProofs.v.
+   Statements only; model: Fix/FixModel.v (check.c repair / repair_step / state_check_process); proofs: Fix/RepairProofs.v,
+   Fix/StripeProofs.v.  The invariant of C06 is reused through Array/SyncProofsDefs.v (slot_of, stripe_synced, enc_ok: the
+   vector v that ParOK gives for a synced stripe).
 
    Vocabulary (Fix/RepairProofs.v):
      fm_ok fm buf        the entries to recover are not marked out-of-date, have a recorded hash (BLK/REP), index the buffer
@@ -13,7 +15,8 @@
      blk_failed          the failed set of a stripe whose blocks are all BLK: bad entries with a recorded hash *)
 From Coq Require Import NArith ZArith List Bool Arith Lia.
 From Snap.Array Require Import ArrayDefs.
-From Snap.Fix Require Import FixModel RepairProofs.
+From Snap.Array Require Import SyncProofsDefs.
+From Snap.Fix Require Import FixModel RepairProofs StripeProofs.
 Import ListNotations.
 
 (* 1. repair_step (strategy with hashes) tries the parity combinations in order, rejects every combination that contains
@@ -46,3 +49,73 @@ Theorem C01_repair_restores :
       /\ full v buf buf'.
 Proof. exact repair_restores. Qed.
 Print Assumptions C01_repair_restores.
+
+(* 3. fix_restores, per stripe (the step function of the model: state_check_process for one stripe position, fix mode, no
+      filters).  Hypotheses: the stripe is synced (all blocks BLK; C06's stripe_synced), v is the recorded vector (C06's
+      enc_ok, which ParOK provides), recorded blocks are zero padded, no file of the stripe is LARGER than recorded (every
+      other state is allowed: missing, short, any content), collision freedom on the blocks involved (the damaged blocks
+      read, the junk reconstructions, the vectors encoded by the parity blocks read, the blocks of same-stamp files that
+      state_search_fetch may pick), and the number of damaged data blocks does not exceed the number of intact parity
+      levels (i.e. at most nlev damaged blocks in the stripe, data and parity together).
+      Conclusion: every file block of the stripe holds the recorded block (the file is there and long enough), every
+      level holds the encoding of the recorded vector, no unrecoverable error is counted, no file is marked DAMAGED
+      (so none is renamed .unrecoverable) *)
+Theorem C01_fix_step_restores :
+  forall (hashf : bid -> N -> hval) (padz : bid -> N -> bool) (truncf : bid -> N -> bid) (bs : N) (nlev : nat) (reduced : bool)
+         (newino : nat -> N -> N) (now : Z) (o : copts) (c : content) (fs0 : list (option fsdisk)) (pos : nat) (s : rstate) (v : list bid),
+    plain nlev o -> co_fix o = true -> stripe_synced c pos -> length (r_fs s) = length (c_disks c) ->
+    (forall j f idx b, slot_of c pos j = SFile f idx b ->
+       (0 < block_len bs (cf_size f) idx)%N
+       /\ (forall g, fs_find (r_fs s) j (cf_name f) = Some g -> (ff_size g <= cf_size f)%N)
+       /\ (co_fix o = true \/ fl_missing (get_fl (r_flags s) (j, cf_name f)) = false)) ->
+    enc_ok hashf bs c pos v ->
+    (forall j f idx b, slot_of c pos j = SFile f idx b -> pad_ok padz bs (vnth v j) (block_len bs (cf_size f) idx) = true) ->
+    (forall j f idx b y, slot_of c pos j = SFile f idx b -> read_block bs s j f idx = Some y -> hash_ok hashf bs f idx b y = true -> y = vnth v j) ->
+    cf_junk hashf padz bs (flat_map (fent_of hashf bs c pos s) (seq 0 (length (c_disks c)))) ->
+    cf_rec hashf padz bs (flat_map (fent_of hashf bs c pos s) (seq 0 (length (c_disks c)))) (map (prow (r_par s) pos) (seq 0 nlev)) v ->
+    cf_search hashf bs (co_nosearch o) fs0 (flat_map (fent_of hashf bs c pos s) (seq 0 (length (c_disks c)))) v ->
+    length (filter (is_bad hashf bs c pos s) (seq 0 (length (c_disks c))))
+      <= length (filter (good_level v (map (prow (r_par s) pos) (seq 0 nlev))) (seq 0 nlev)) ->
+    nlev <= length (r_par s) ->
+    (forall j f idx b, slot_of c pos j = SFile f idx b -> fl_damaged (get_fl (r_flags s) (j, cf_name f)) = false) ->
+    (forall j f idx b, slot_of c pos j = SFile f idx b -> (N.of_nat idx * bs + block_len bs (cf_size f) idx <= cf_size f)%N) ->
+    let s' := stripe_step hashf padz truncf bs nlev reduced newino now o c fs0 s pos in
+    (forall j f idx b, slot_of c pos j = SFile f idx b ->
+       exists g, fs_find (r_fs s') j (cf_name f) = Some g /\ nth idx (ff_blocks g) 0%N = vnth v j
+                 /\ (N.of_nat idx * bs + block_len bs (cf_size f) idx <= ff_size g)%N /\ (ff_size g <= cf_size f)%N)
+    /\ (forall l, l < nlev -> par_matches v (prow (r_par s') pos l) = true)
+    /\ r_unrec s' = r_unrec s
+    /\ keeps_damaged s s'
+    /\ length (r_fs s') = length (r_fs s).
+Proof. exact fix_step_restores. Qed.
+Print Assumptions C01_fix_step_restores.
+
+(* 4. ... and a following check of the stripe (a new run: fresh flags and counters, no filters) reports nothing, counts no
+      error and changes nothing *)
+Theorem C01_fix_then_check_quiet :
+  forall (hashf : bid -> N -> hval) (padz : bid -> N -> bool) (truncf : bid -> N -> bid) (bs : N) (nlev : nat) (reduced : bool)
+         (newino : nat -> N -> N) (now : Z) (o : copts) (c : content) (fs0 : list (option fsdisk)) (pos : nat) (s : rstate) (v : list bid),
+    plain nlev o -> co_fix o = true -> stripe_synced c pos -> length (r_fs s) = length (c_disks c) ->
+    (forall j f idx b, slot_of c pos j = SFile f idx b ->
+       (0 < block_len bs (cf_size f) idx)%N
+       /\ (forall g, fs_find (r_fs s) j (cf_name f) = Some g -> (ff_size g <= cf_size f)%N)
+       /\ (co_fix o = true \/ fl_missing (get_fl (r_flags s) (j, cf_name f)) = false)) ->
+    enc_ok hashf bs c pos v ->
+    (forall j f idx b, slot_of c pos j = SFile f idx b -> pad_ok padz bs (vnth v j) (block_len bs (cf_size f) idx) = true) ->
+    (forall j f idx b y, slot_of c pos j = SFile f idx b -> read_block bs s j f idx = Some y -> hash_ok hashf bs f idx b y = true -> y = vnth v j) ->
+    cf_junk hashf padz bs (flat_map (fent_of hashf bs c pos s) (seq 0 (length (c_disks c)))) ->
+    cf_rec hashf padz bs (flat_map (fent_of hashf bs c pos s) (seq 0 (length (c_disks c)))) (map (prow (r_par s) pos) (seq 0 nlev)) v ->
+    cf_search hashf bs (co_nosearch o) fs0 (flat_map (fent_of hashf bs c pos s) (seq 0 (length (c_disks c)))) v ->
+    length (filter (is_bad hashf bs c pos s) (seq 0 (length (c_disks c))))
+      <= length (filter (good_level v (map (prow (r_par s) pos) (seq 0 nlev))) (seq 0 nlev)) ->
+    nlev <= length (r_par s) ->
+    (forall j f idx b, slot_of c pos j = SFile f idx b -> fl_damaged (get_fl (r_flags s) (j, cf_name f)) = false) ->
+    (forall j f idx b, slot_of c pos j = SFile f idx b -> (N.of_nat idx * bs + block_len bs (cf_size f) idx <= cf_size f)%N) ->
+    forall o' : copts, plain nlev o' -> co_fix o' = false ->
+    (forall j f idx b, slot_of c pos j = SFile f idx b -> (0 < block_len bs (cf_size f) idx)%N) ->
+    let s' := stripe_step hashf padz truncf bs nlev reduced newino now o c fs0 s pos in
+    let s0 := mkRS (r_fs s') [] (r_par s') 0 0 0 [] 0%N in
+    let s'' := stripe_step hashf padz truncf bs nlev reduced newino now o' c (r_fs s') s0 pos in
+    r_tags s'' = [] /\ r_err s'' = 0 /\ r_unrec s'' = 0 /\ r_fs s'' = r_fs s' /\ r_par s'' = r_par s'.
+Proof. exact fix_then_check_quiet. Qed.
+Print Assumptions C01_fix_then_check_quiet.
